@@ -1,5 +1,15 @@
 package object
 
 var vpHarnesses = map[string]func(){
-	"VP_C12_Sign": VP_C12_Sign,
+	"VP_C12_Sign":           VP_C12_Sign,
+	"VP_C01_RoundTrip":      VP_C01_RoundTrip,
+	"VP_C01_Header":         VP_C01_Header,
+	"VP_C01_Idempotent":     VP_C01_Idempotent,
+	"VP_C19_ReadHeader":     VP_C19_ReadHeader,
+	"VP_C19_GetObject":      VP_C19_GetObject,
+	"VP_C19_ValidUnderName": VP_C19_ValidUnderName,
+	"VP_C19_RawObject":      VP_C19_RawObject,
+	"VP_C19_WalkTree":       VP_C19_WalkTree,
+	"VP_C19_NewCommit":      VP_C19_NewCommit,
+	"VP_C19_ReadSign":       VP_C19_ReadSign,
 }
